@@ -77,16 +77,52 @@ def apply_uf(name, buf, nout):
             return bytearray(v.to_bytes(nout, 'big'))
         return _default_interp(name, data, nout)
     f = _fn(name, nin, nout)
-    return split(f(cat(buf)), nout)
+    arg = cat(buf)
+    out = f(arg)
+    c = Ctx.cur
+    if c is not None:
+        apps = getattr(c, "uf_apps", None)
+        if apps is None:
+            apps = c.uf_apps = []
+        apps.append((name, nin, nout, arg, out))
+    return split(out, nout)
 
 
-def apply_uf_term(name, buf, nout):
-    """like apply_uf but returns the raw z3 term (symbolic mode only)"""
-    if is_concrete_mode():
-        raise Unsupported("apply_uf_term in concrete mode")
-    buf = list(buf)
-    return _fn(name, len(buf), nout)(cat(buf))
-
-
-def to_list(x):
-    return list(x)
+def assume_collision_free(prefixes, same_shape_only=()):
+    """collision resistance as a path assumption: over all applications made
+    so far on this path of functions whose name starts with one of
+    `prefixes` (one family per prefix: all input lengths together), equal
+    outputs imply equal inputs (and equal input length; for prefixes listed
+    in same_shape_only just within one function).  Incremental: pairs already
+    constrained on this path are not added again.  Returns the number of
+    constraints added."""
+    c = Ctx.cur
+    if is_concrete_mode() or c is None:
+        return 0
+    apps = getattr(c, "uf_apps", [])
+    done = getattr(c, "uf_cf_done", None)
+    if done is None:
+        done = c.uf_cf_done = set()
+    n = 0
+    for pre in prefixes:
+        fam = {}
+        for name, nin, nout, arg, out in apps:
+            if name.startswith(pre):
+                fam[(name, nin, arg.get_id())] = (name, nin, nout, arg, out)
+        keys = list(fam)
+        for i in range(len(keys)):
+            for j in range(i + 1, len(keys)):
+                pk = (keys[i], keys[j])
+                if pk in done:
+                    continue
+                done.add(pk)
+                a, b = fam[keys[i]], fam[keys[j]]
+                if a[2] != b[2]:
+                    continue
+                if a[0] == b[0] and a[1] == b[1]:
+                    assume(z3.Implies(a[4] == b[4], a[3] == b[3]))
+                    n += 1
+                elif pre not in same_shape_only:
+                    assume(a[4] != b[4])
+                    n += 1
+    return n
